@@ -37,6 +37,10 @@ CHECKS = {
          "unbounded symbolic payloads; per-parameter unmarshallers replaced by tagging stubs so that what f receives shows which "
          "parameter's routine converted each argument; inspect.Signature.bind is the oracle for acceptance and routing; an end-to-end "
          "variant keeps the real unmarshallers.", "4/C10", "CrossHair symbolic execution of bind()/wrap() over call shapes vs inspect.Signature.bind, z3 path exhaustion, native replay"),
+ "C16": ("E3 inductive step: the pre-state is an arbitrary reachable TypeContext content over a closed key family (presence and alias-memo "
+         "bits are choice variables the solver enumerates exhaustively), one operation, a second lookup, against a reference model whose "
+         "unwraps-to / named-by relations are hand-written tables; the representation invariant is assumed before and asserted after, so "
+         "histories of any length are covered.", "4/C16", "CrossHair/z3 exhaustive exploration of choice variables (bounded model checking of one inductive step), native replay"),
 }
 NA = {
  "C17": "flat catalogue of CPython type objects compared with CPython's own issubclass/typing internals: neither side can be encoded for a solver and there is no value, shape, state or history to make symbolic (DESIGN.md section 7)",
